@@ -38,6 +38,15 @@ func dres(ok bool, s string) string {
 }
 
 func genLock(r *hlib.Rng) *big.Int {
+	switch shapeMode {
+	case "zero":
+		if r.Bool() {
+			return nil
+		}
+		return big.NewInt(0)
+	case "small":
+		return big.NewInt(smallBigs[r.Intn(len(smallBigs))])
+	}
 	switch r.Pick(25, 20, 20, 15, 10, 10) {
 	case 0:
 		return nil
